@@ -80,6 +80,13 @@ class Scen:
         self.make = make
 
 
+def hold_fixed(spec, name):
+    """the leaf `name` sits at an admissible SPECIAL value: it is built like every other parameter but no
+    derivative is taken with respect to it (the other parameters are differentiated at interior points)"""
+    spec.setdefault("coords", {})[name] = []
+    spec.setdefault("fixed", []).append(name)
+
+
 # ----------------------------------------------------------------------------- JSON helpers
 def P(id_, vals, grad=False):
     return {"id": id_, "type": "Parameter", "tensor": [float(v) for v in vals], "dtype": "torch.float64",
@@ -243,7 +250,8 @@ SUBST_KINDS = ("JC69", "HKY", "HKY_sb", "GTR", "GTR_sb", "GenSym", "GenNonSym", 
 SITE_KINDS = ("const", "const_mu", "weibull", "weibull_inv", "weibull_mu", "inv", "inv_mu")
 
 
-def gen_like(rng, subst, site, treekind, rescale, tip_states=False, ambig=True, n=None, sites=None, clock="strict"):
+def gen_like(rng, subst, site, treekind, rescale, tip_states=False, ambig=True, n=None, sites=None, clock="strict",
+             pinv_zero=False):
     n = n or rng.randint(4, 6)
     sites = sites or rng.randint(6, 10)
     t, x, b = gen_tree(rng, n, treekind)
@@ -289,6 +297,10 @@ def gen_like(rng, subst, site, treekind, rescale, tip_states=False, ambig=True, 
         x["pinv"], b["pinv"] = [rng.uniform(0.1, 0.6)], [0.0, 1.0]
     spec["x"], spec["bounds"] = x, b
     spec["name"] = "like/%s/%s/%s/rescale=%d%s" % (subst, site, treekind, rescale, "/tipstates" if tip_states else "")
+    if pinv_zero and "pinv" in x:
+        x["pinv"] = [0.0]
+        hold_fixed(spec, "pinv")
+        spec["name"] += "/pinv=0"
     return spec
 
 
@@ -386,7 +398,9 @@ COAL_KINDS = ("constant", "constant_int", "exponential", "skyride", "skygrid", "
 COAL_TREES = ("fake", "time", "ratio", "ratio_tp")
 
 
-def gen_coal(rng, kind, treekind, theta_tp=False, n=None):
+def gen_coal(rng, kind, treekind, theta_tp=False, n=None, special=None):
+    """special: None | "equal_theta" (all thetas equal, held) | "beyond_root" (last grid points beyond the root)
+    | "growth0" (growth exactly 0, held)"""
     n = n or rng.randint(4, 7)
     spec = {"family": "coal", "kind": kind, "theta_tp": bool(theta_tp)}
     if treekind == "fake":
@@ -421,7 +435,7 @@ def gen_coal(rng, kind, treekind, theta_tp=False, n=None):
     else:
         g = rng.randint(2, 4)
         k = g + 1
-        cut = root * rng.choice([0.7, 0.95, 1.4])
+        cut = root * (1.6 if special == "beyond_root" else rng.choice([0.7, 0.95, 1.4]))
         spec["grid"] = [cut * (i + 1) / g for i in range(g)]
         if kind == "pwexp":
             x["growth"], b["growth"] = [rng.choice([-1, 1]) * rpos(rng, 0.1, 1.0) for _ in range(k)], [None, None]
@@ -435,6 +449,17 @@ def gen_coal(rng, kind, treekind, theta_tp=False, n=None):
             x["theta"], b["theta"] = th, [0.0, None]
     spec["x"], spec["bounds"] = x, b
     spec["name"] = "coal/%s/%s%s" % (kind, treekind, "/theta=exp(.)" if theta_tp else "")
+    if special == "equal_theta" and k > 1:
+        nm = "logtheta" if theta_tp else "theta"
+        x[nm] = [x[nm][0]] * len(x[nm])
+        hold_fixed(spec, nm)
+        spec["name"] += "/equal-thetas"
+    elif special == "beyond_root" and "grid" in spec:
+        spec["name"] += "/grid-beyond-root"
+    elif special == "growth0" and "growth" in x:
+        x["growth"] = [0.0] * len(x["growth"])
+        hold_fixed(spec, "growth")
+        spec["name"] += "/growth=0"
     return spec
 
 
@@ -497,10 +522,17 @@ def make_coal(spec):
 
 
 # ----------------------------------------------------------------------------- birth-death
-def gen_bdsk(rng, treekind, m=None, rho=False, survival=True, root_edge=False, explicit_times=False, n=None):
+def gen_bdsk(rng, treekind, m=None, rho=False, survival=True, root_edge=False, explicit_times=False, n=None,
+             r=None):
+    """`rho`: False (absent) | True (interior leaf) | 0.0 / 1.0 (held at the special value);
+    `r` (removal probability): None (absent) | True (interior leaf) | 0.0 / 1.0 (held at the special value)"""
     n = n or rng.randint(4, 6)
     m = m or rng.randint(1, 3)
-    t, x, b = gen_tree(rng, n, treekind)
+    for _ in range(50):
+        t, x, b = gen_tree(rng, n, treekind)
+        # at least one tip at the present and one sampled through time
+        if any(d > 0 for d in t["dates"]) and any(d == 0 for d in t["dates"]):
+            break
     spec = {"family": "bdsk", "tree": t, "m": m, "survival": survival, "root_edge": root_edge, "rho": rho,
             "explicit_times": explicit_times}
     root = x["root"][0] if "root" in x else max(x["heights"])
@@ -511,14 +543,27 @@ def gen_bdsk(rng, treekind, m=None, rho=False, survival=True, root_edge=False, e
         x["origin"], b["origin"] = [rng.uniform(0.3, 1.5)], [0.0, None]
     else:
         x["origin"], b["origin"] = [root + rng.uniform(0.3, 1.5)], [root, None]
-    if rho:
+    special = ""
+    if rho is True:
         x["rho"], b["rho"] = [rng.uniform(0.1, 0.8)], [0.0, 1.0]
+    elif rho is not False:
+        x["rho"], b["rho"] = [float(rho)], [0.0, 1.0]
+        hold_fixed(spec, "rho")
+        special += "/rho=%g" % rho
+    if r is True:
+        x["r"], b["r"] = [rng.uniform(0.15, 0.85) for _ in range(m)], [0.0, 1.0]
+        special += "/r"
+    elif r is not None:
+        x["r"], b["r"] = [float(r)] * m, [0.0, 1.0]
+        hold_fixed(spec, "r")
+        special += "/r=%g" % r
     if explicit_times and m > 1:
         o = x["origin"][0] + (root if root_edge else 0.0)
         spec["times"] = [0.0] + [o * (i + rng.uniform(0.2, 0.8)) / m for i in range(m - 1)]
     spec["x"], spec["bounds"] = x, b
-    spec["name"] = "bdsk/%s/m=%d%s%s%s%s" % (treekind, m, "/rho" if rho else "", "" if survival else "/nosurvival",
-                                            "/rootedge" if root_edge else "", "/times" if "times" in spec else "")
+    spec["name"] = "bdsk/%s/m=%d%s%s%s%s%s" % (treekind, m, "/rho" if rho is True else "", "" if survival else "/nosurvival",
+                                              "/rootedge" if root_edge else "", "/times" if "times" in spec else "",
+                                              special)
     return spec
 
 
@@ -536,6 +581,8 @@ def make_bdsk(spec):
               "origin_is_root_edge": spec["root_edge"]}
         if "rho" in vals:
             js["rho"] = P("rho", vals["rho"], grad)
+        if "r" in vals:
+            js["removal_probability"] = P("r", vals["r"], grad)
         if "times" in spec:
             js["times"] = {"id": "times", "type": "Parameter", "tensor": spec["times"], "dtype": "torch.float64"}
         mdl = process_object(js, dic)
@@ -557,18 +604,26 @@ def make_bdsk(spec):
     return Scen(spec, make)
 
 
-def gen_bdmodel(rng, treekind, survival=True, n=None):
+def gen_bdmodel(rng, treekind, survival=True, n=None, rho=None):
     """BirthDeathModel (constant-rate birth-death with sampling) on a real time tree"""
     n = n or rng.randint(4, 6)
-    t, x, b = gen_tree(rng, n, treekind)
+    for _ in range(50):
+        t, x, b = gen_tree(rng, n, treekind)
+        if rho is None or (any(d > 0 for d in t["dates"]) and any(d == 0 for d in t["dates"])):
+            break
     root = x["root"][0] if "root" in x else max(x["heights"])
     x["lambda"], b["lambda"] = [rpos(rng, 1.0, 3.0)], [0.0, None]
     x["mu"], b["mu"] = [rpos(rng, 0.3, 1.0)], [0.0, None]
     x["psi"], b["psi"] = [rpos(rng, 0.2, 1.0)], [0.0, None]
     x["rho"], b["rho"] = [rng.uniform(0.1, 0.8)], [0.0, 1.0]
     x["origin"], b["origin"] = [root + rng.uniform(0.3, 1.5)], [root, None]
-    return {"family": "bdmodel", "tree": t, "survival": survival, "x": x, "bounds": b,
+    spec = {"family": "bdmodel", "tree": t, "survival": survival, "x": x, "bounds": b,
             "name": "birth_death_model/%s%s" % (treekind, "" if survival else "/nosurvival")}
+    if rho is not None:
+        x["rho"] = [float(rho)]
+        hold_fixed(spec, "rho")
+        spec["name"] += "/rho=%g" % rho
+    return spec
 
 
 def make_bdmodel(spec):
@@ -1113,6 +1168,31 @@ def catalogue(rng, tier):
             add(lambda t=tk, sv=surv: gen_bdmodel(rng, t, sv))
     if thorough:
         add(lambda: gen_bd(rng, hetero=False))
+
+    # --- parameters exactly at admissible special values, held fixed; gradient in the OTHER parameters
+    sp = []
+    for rv in (0.0, 1.0):
+        for rh in (0.0, 1.0):
+            sp.append(lambda rv=rv, rh=rh: gen_bdsk(rng, rng.choice(["time", "ratio"]), rng.choice([1, 2]), rh, True,
+                                                    False, False, r=rv))
+    sp.append(lambda: gen_bdsk(rng, "ratio", 1, 1.0, True, False, False, r=True))
+    sp.append(lambda: gen_bdsk(rng, "time", 2, True, True, False, False, r=0.0))
+    sp.append(lambda: gen_bdsk(rng, "ratio", rng.choice([1, 2]), True, True, False, False, r=True))
+    sp.append(lambda: gen_bdsk(rng, "time", 1, 0.0, True, False, False))
+    for rh in (0.0, 1.0):
+        sp.append(lambda rh=rh: gen_bdmodel(rng, rng.choice(["time", "ratio"]), True, rho=rh))
+    for site in ("weibull_inv", "inv", "inv_mu"):
+        sp.append(lambda si=site: gen_like(rng, rng.choice(["JC69", "HKY", "GTR_sb"]), si,
+                                           rng.choice(["unrooted", "ratio"]), rng.randrange(2), pinv_zero=True))
+    for kind in ("skyride", "skygrid", "pwlinear", "skygrid_soft"):
+        sp.append(lambda k=kind: gen_coal(rng, k, rng.choice(["time", "ratio"]), False, special="equal_theta"))
+    for kind in ("skygrid", "pwlinear"):
+        sp.append(lambda k=kind: gen_coal(rng, k, rng.choice(["fake", "time", "ratio"]), rng.random() < 0.5,
+                                          special="beyond_root"))
+    sp.append(lambda: gen_coal(rng, "exponential", rng.choice(["time", "ratio"]), False, special="growth0"))
+    # several independent points per special configuration: whether a masked factor is EXACTLY zero in
+    # floating point (0 * inf in backward) depends on the rounding at the point
+    c.extend(sp * (4 if thorough else 2))
 
     # --- GMRF family
     for integ in (False, True):
